@@ -120,6 +120,7 @@ def check_C11(report, tier, seed):
     S.exhaustive(report, "C11", 3 if tier == "quick" else 4)
     S.pubrel_race_family(report, "C11")
     S.trailing_empty_field_family(report, "C11")
+    S.session_present_family(report, "C11")
     # a server that follows the protocol is never reported as violating it: which inbound size limit is in force
     import suites_codec
     suites_codec.suite_engine_inbound_size(report, "C11")
